@@ -118,9 +118,11 @@ def jobs(prop, tier):
     if prop == "C13":
         ent = ["sync_entry_t1", "sync_entry_t2", "sync_entry_t3", "sync_entry_cc", "sync_entry_ss", "sync_entry_pre"]
         if q:
-            return [SE(c + "_edge", 2, rate=(0.1 if c == "sync_entry_pre" else 1.0)) for c in ent] + [SE("sync_sc_edge", 2, rate=0.05), SE("sync_3_edge", 3, rate=0.002)]
+            return [SE(c + "_edge", 2, rate=(0.1 if c == "sync_entry_pre" else 1.0)) for c in ent] + [SE("sync_sc_edge", 2, rate=0.05), SE("sync_3_edge", 3, rate=0.002),
+                                                                                                        # entries whose requests or answers are repeated, lost or late
+                                                                                                        SE("sync_faults_sc_edge", 2, rate=0.004)]
         return [SM(c) for c in ent] + [SE(c + "_edge", 2) for c in ent] + [SE("sync_sc_edge", 2, rate=0.5), SE("sync_3_edge", 3, rate=0.03),
-                                                                         SE("sync_basic_edge", 2, rate=0.3)]
+                                                                         SE("sync_basic_edge", 2, rate=0.3), SE("sync_faults_sc_edge", 2, rate=0.05)]
     if prop == "C14":
         return [dict(mode="edge", cfg="codec", kind="codec", n=0, rate=1.0, tool="codeccheck", dump_module="OrdaCodec.tla", prefix="CODEC")]
     if prop == "C12":
